@@ -2,9 +2,9 @@
 from grpb import *
 from grpa import mc_module
 LEVEL = "model_checking"
-CONSTS = [[], [["k", "v"]], [["k", "v"], ["k2", "é\"\\"]]]
+CONSTS = [[], [["k", "v"]], [["k", "v"], ["k2", "é\"\\"]], [["k", ""]], [["k", ""], ["k2", " "]]]      # incl. empty and blank values
 LABELS = [["x"], ["x", "y"], ["y", "x"]]      # incl. a list that is not in ascending order
-BUCKETS = [[], [1, 2], [5]]          # scaled by 0.5 in the harness -> 0.5, 1.0 / 2.5
+BUCKETS = [[], [1, 2], [5], [0], [3, 0]]          # finite bounds scaled by 0.5 in the harness; 0 stands for an explicit +Inf bound
 
 
 def upd_calls(m, slot):
@@ -22,7 +22,8 @@ def build(case, i):
     name, help_ = "mac_%d_x" % i, "help %d" % i
     const = [list(p) for p in case["const"]]
     labels = list(case["labels"])
-    buckets = [x * 0.5 for x in case["buckets"]]
+    buckets = [float("inf") if x == 0 else x * 0.5 for x in case["buckets"]]
+    buckets = [F(x) for x in buckets]
     calls = [{"op": "registry", "as": "rc"}, {"op": "registry", "as": "rp", "custom": True, "prefix": "pre", "labels": [["zone", "z"]]}]
     target = {"default": None, "custom": "rc", "custom_prefixed": "rp"}[case["target"]]
     opts = {"name": name, "help": help_, "const_map": const}
